@@ -173,10 +173,11 @@ func rDone(status, count int) respPkg {
 	return respPkg{wDone(0xFD, status, 0, count), fmt.Sprintf("done:%d", status), fmt.Sprintf("done %d 0 %d", status, count)}
 }
 func rEED(nr int, info bool, msg string) respPkg {
-	st := byte(0)
+	// the status is a bit set: TDS_EED_FOLLOWS (0x01) with and without TDS_EED_INFO (0x02)
+	st := byte(nr % 2)
 	k := "eed"
 	if info {
-		st, k = 2, "eedinfo"
+		st, k = 2|byte(nr%2), "eedinfo"
 	}
 	b := wEED(nr, st, msg)
 	return respPkg{b, k, ""}
@@ -196,7 +197,7 @@ func randomResponse(rng *rand.Rand, final bool) []respPkg {
 		case 0, 1:
 			r = append(r, rEED(1000+rng.Intn(9000), false, "msg "+strconv.Itoa(rng.Intn(100))+"\n"))
 		case 2:
-			r = append(r, rEED(5701, true, "Changed database context.\n"))
+			r = append(r, rEED(5701+rng.Intn(2), true, "Changed database context.\n"))
 		case 3:
 			r = append(r, rEnv([3]string{"\x01", "db" + strconv.Itoa(rng.Intn(9)), "master"}))
 		case 4:
@@ -270,6 +271,16 @@ func randomCuts(rng *rand.Rand, n, k int) []int {
 // whole-run answers, cached per (hooks, body) for the C02 oracle "same as the single-packet run of the real code"
 var rxWhole sync.Map
 
+func rxWholeAnswerLine(ne, nv int, pkts string) string {
+	key := fmt.Sprintf("%d %d %s", ne, nv, pkts)
+	if v, ok := rxWhole.Load(key); ok {
+		return v.(string)
+	}
+	s := rxImpl(fmt.Sprintf("rx %d %d %s", ne, nv, pkts))
+	rxWhole.Store(key, s)
+	return s
+}
+
 func rxWholeAnswer(ne, nv int, body []byte) string {
 	key := fmt.Sprintf("%d %d %s", ne, nv, hx(body))
 	if v, ok := rxWhole.Load(key); ok {
@@ -288,21 +299,26 @@ func rxOracleC02(line, out string) string {
 	if out == "panic" || out == "timeout" {
 		return "a fragmented response neither crashes nor hangs the channel"
 	}
-	// only lines that are one message cut into body packets (EOM on the last)
+	// lines that are one or more messages, each cut into body packets (EOM on its last packet): the
+	// reference is the same messages, each in a single packet, through the real code
+	var ref []string
 	var body []byte
 	for i, t := range f[3:] {
 		p := strings.Split(t, ":")
 		if len(p) != 2 || (p[0] != "b0" && p[0] != "b1") {
 			return ""
 		}
-		if (p[0] == "b1") != (i == len(f[3:])-1) {
-			return ""
-		}
 		body = append(body, unhx(p[1])...)
+		if p[0] == "b1" {
+			ref = append(ref, "b1:"+hx(body))
+			body = nil
+		} else if i == len(f[3:])-1 {
+			return "" // the last message is incomplete: not judged here (C14)
+		}
 	}
 	ne, _ := strconv.Atoi(f[1])
 	nv, _ := strconv.Atoi(f[2])
-	if want := rxWholeAnswer(ne, nv, body); out != want {
+	if want := rxWholeAnswerLine(ne, nv, strings.Join(ref, " ")); out != want {
 		return "the channel delivers the same packages, errors and hook calls as for the single-packet response"
 	}
 	return ""
@@ -365,6 +381,24 @@ func c02Gen(tier string, rng *rand.Rand, emit func(Case)) {
 			}
 			emit(Case{Line: fmt.Sprintf("rx 1 0 %s", strings.Join(cutTokens(body, cuts), " ")), Kind: "all-cut-sets"})
 		}
+	}
+	// histories: a later response of the same channel is the fragmented one (state left behind by an earlier
+	// response must not change how a later one is parsed)
+	nh := 150
+	if tier == "thorough" {
+		nh = 1500
+	}
+	for i := 0; i < nh; i++ {
+		var toks []string
+		for j := 0; j < 2+rng.Intn(2); j++ {
+			body := respBytes(randomResponse(rng, rng.Intn(2) == 0))
+			var cuts []int
+			if j > 0 || rng.Intn(3) == 0 {
+				cuts = randomCuts(rng, len(body), 1+rng.Intn(4))
+			}
+			toks = append(toks, cutTokens(body, cuts)...)
+		}
+		emit(Case{Line: fmt.Sprintf("rx %d %d %s", rng.Intn(2), rng.Intn(2), strings.Join(toks, " ")), Kind: "history"})
 	}
 	// header-only packets interleaved
 	for i := 0; i < 20; i++ {
@@ -626,7 +660,7 @@ func init() {
 		FindingKey: func(line, out, clause string) string { return clause },
 		Nontrivial: func(line, out string) bool { return strings.Count(line, " b") >= 2 || strings.HasPrefix(line, "rd ") },
 		NoShrink:   true, Timeout: 30 * time.Second, Timed: true,
-		Rule: "channel layer: random responses (DONE variants, EED info/non-info, ENVCHANGE incl. PACKSIZE, MSG, RETURNSTATUS, LOGINACK; 0..2 hooks of each kind) fed to the real Channel.WritePacket whole, with every single cut, all pairs of cuts of short responses, random cut sets, one-byte bodies, all 2^(n-1) cut sets of short streams, interleaved header-only packets, and result / parameter sets (format, 1..3 data packages over the data types of the fields group, messages between format and data; every single cut of short ones, random cut sets) — compared with the whole-response run of the real code (oracle) and with the Lean receive model; packet layer: the complete stream through the real reader goroutine with read schedules that split headers and bodies. Non-trivial = at least two packets",
+		Rule: "channel layer: random responses (DONE variants, EED info/non-info, ENVCHANGE incl. PACKSIZE, MSG, RETURNSTATUS, LOGINACK; 0..2 hooks of each kind) fed to the real Channel.WritePacket whole, with every single cut, all pairs of cuts of short responses, random cut sets, one-byte bodies, all 2^(n-1) cut sets of short streams, interleaved header-only packets, histories of 2..3 responses on one channel where the later ones are the fragmented ones, and result / parameter sets (format, 1..3 data packages over the data types of the fields group, messages between format and data; every single cut of short ones, random cut sets) — compared with the whole-response run of the real code (oracle) and with the Lean receive model; packet layer: the complete stream through the real reader goroutine with read schedules that split headers and bodies. Non-trivial = at least two packets",
 		Assumptions: []string{"responses are built from the package kinds of the codec registry (Basic, Cursor, Fields without BLOB columns)", "net.Conn read semantics for the packet layer"},
 	})
 }
